@@ -15,6 +15,7 @@ cross product; sum of combined weights x values = reported integral."""
 import contextlib
 import io
 import itertools
+import traceback
 from fractions import Fraction as Fr
 
 import numpy as np
@@ -198,6 +199,33 @@ def build(cfg, f, interp_op, integrator=None):
         sc._verif_siblings = [build_sibling(cfg, sib) for sib in cfg["siblings"]]
         work_siblings(sc, cfg)
     return sc, grid, op
+
+
+# objects built earlier in this process (one per explored configuration): a failing input is only self-contained
+# together with them, so every reported case carries the earlier configurations of its dimension ("history") and the
+# replay lets them work first
+HISTORY = []
+_ALIVE = []
+
+
+def with_history(case):
+    dim = case.get("cfg", {}).get("dim")
+    return dict(case, history=[h for h in HISTORY if h["dim"] == dim])
+
+
+def remember(cfg):
+    HISTORY.append({k: cfg[k] for k in ("dim", "lmin", "lmax", "bd", "a", "b", "flags", "via", "flagtype") if k in cfg})
+
+
+def replay_history(hist):
+    from sparseSpACE.Function import FunctionLinear
+    for h in hist:
+        c2 = dict(h, _is_sibling=True)
+        sc = build(c2, FunctionLinear([float(d + 1) for d in range(h["dim"])]), False)[0]
+        sc._verif_siblings = [sc]
+        work_siblings(sc, h)
+        sc._verif_siblings = []
+        _ALIVE.append(sc)
 
 
 def build_sibling(cfg, sib):
@@ -403,7 +431,7 @@ class Runner:
         return True
 
     def viol(self, probe, tags, case, detail):
-        if self.ctx.violation(probe, tags, case, detail):   # False: listed in known_findings.json
+        if self.ctx.violation(probe, tags, with_history(case), detail):   # False: listed in known_findings.json
             self.ok = False
 
     # -------------------------------------------------------------------------- structure of the scheme and grids
@@ -446,6 +474,7 @@ class Runner:
         # per component: points, weights, counts
         coef_at = {}
         union = set()
+        seen_pts = {}
         for lv, c in scheme:
             with quiet():
                 pts = sc.get_points_component_grid(list(lv))
@@ -453,6 +482,7 @@ class Runner:
                 per_dim = grid.levelToNumPoints(list(lv))
                 p2, w2 = sc.get_points_and_weights_component_grid(list(lv))
             pts = [tuple(float(x) for x in p) for p in pts]
+            seen_pts[lv] = pts
             if not (len(pts) == int(n_announced) == int(np.prod(per_dim)) == len(w2) == len(p2)):
                 self.viol("count-mismatch", tags, case, {"levelvec": list(lv), "announced": int(n_announced),
                                                          "per_dim": [int(x) for x in per_dim], "returned": len(pts), "weights": len(w2)})
@@ -500,6 +530,17 @@ class Runner:
         ts = [F(a[d]) + (F(b[d]) - F(a[d])) * ctx.rng.randint(0, 2 ** (k + 2)) / 2 ** (k + 2) for _ in range(6)]
         self.corr("hat-function", dict(case, hat=[d, k, i]), "|".join(str_frac(hat1(a[d], b[d], k, i, t)) for t in ts),
                   drv.ask("hat %s %s %d %d %s" % (fs(a[d]), fs(b[d]), k, i, ",".join(str_frac(t) for t in ts))))
+        # the sibling objects work again, then the object under test is re-observed: same points as before
+        if cfg.get("siblings"):
+            work_siblings(sc, cfg)
+            for lv, c in scheme:
+                with quiet():
+                    again = [tuple(float(x) for x in p) for p in sc.get_points_component_grid(list(lv))]
+                if again != seen_pts[lv]:
+                    self.viol("sibling-interference", tags, case, {"levelvec": list(lv), "before": len(seen_pts[lv]), "after": len(again),
+                                                                   "first_after": [list(p) for p in again[:2]]})
+                    break
+            ctx.count("configs_with_siblings")
         # malformed: level vector of the wrong length
         bad_lv = [lmin] * (dim + 1)
         try:
@@ -526,8 +567,20 @@ class Runner:
             integrator = case["integrator"]
         else:   # both integrator options; the index-based one loops in Python, keep it to moderate sizes
             integrator = "old" if (ctx.rng.random() < 0.4 and len(info["P"]) <= 4000) else None
+        # argument aliasing: the caller keeps ONE coordinate list / point array and overwrites its contents between two
+        # requests on the same object (same shape, other points)
+        if "coords2" in case:
+            coords2, alias_mode = case["coords2"], case.get("alias_mode", "inplace")
+        else:
+            m2 = lmax + 2
+            coords2 = [sorted(float(F(a[d]) + (F(b[d]) - F(a[d])) * ctx.rng.randint(0, 2 ** m2) / 2 ** m2) for _ in coords[d])
+                       for d in range(dim)]
+            if us and ctx.rng.random() < 0.5:
+                d = ctx.rng.randrange(dim)
+                coords2[d] = sorted(coords2[d][1:] + [ctx.rng.choice(us)[d]])
+            alias_mode = ctx.rng.choice(["inplace", "replace"])
         case = dict(case, comps=[comp_to_case(c) for c in comps], xs=[list(p) for p in xs], coords=coords, interp_op=interp_op,
-                    lv_one=list(lv_one), integrator=integrator)
+                    lv_one=list(lv_one), integrator=integrator, coords2=coords2, alias_mode=alias_mode)
         tags = dict(tags, integrator=integrator or "scalar-product")
         f = make_function(dim, comps, (a, b, fl))
         sc, grid, op = build(cfg, f, interp_op, integrator)
@@ -536,13 +589,33 @@ class Runner:
                 _, _, integral = sc.perform_operation(lmin, lmax)
                 integral = np.array(integral, dtype=float).copy()
                 vals = np.array(sc(list(xs)), dtype=float)
-                gvals = np.array(sc.interpolate_grid([np.array(c) for c in coords]), dtype=float)
+                coords_obj = [np.array(c, dtype=float) for c in coords]
+                gvals = np.array(sc.interpolate_grid(coords_obj), dtype=float)
+                for d in range(dim):      # the SAME list object now describes another tensor grid
+                    if alias_mode == "inplace":
+                        coords_obj[d][:] = coords2[d]
+                    else:
+                        coords_obj[d] = np.array(coords2[d], dtype=float)
+                gvals2 = np.array(sc.interpolate_grid(coords_obj), dtype=float)
+                gpts2 = list(itertools.product(*coords2))
+                gvals2_ref = np.array(sc(list(gpts2)), dtype=float)
+                pts_arr = np.array([list(p) for p in xs], dtype=float)
+                vals_a = np.array(sc(pts_arr), dtype=float)
+                pts_arr[:] = pts_arr[::-1].copy()     # the SAME point array, reversed in place
+                vals_b = np.array(sc(pts_arr), dtype=float)
                 cg = [g for g in sc.scheme if tuple(int(x) for x in g.levelvector) == tuple(lv_one)][0]
                 one = np.array(sc.interpolate_points(list(xs), cg), dtype=float)
         except Exception as e:
             self.viol("exception", dict(tags, exc=type(e).__name__), case, {"exc": repr(e)[:300]})
             return
         gpts = list(itertools.product(*coords))
+        if not np.array_equal(gvals2, gvals2_ref, equal_nan=True):
+            self.viol("grid-vs-pointwise", dict(tags, aliased=alias_mode), case,
+                      {"what": "interpolate_grid called again with the same list object whose contents were overwritten",
+                       "interpolate_grid": fmt_vals(gvals2[:, 0])[:200], "call": fmt_vals(gvals2_ref[:, 0])[:200]})
+        if not (np.array_equal(vals_a, vals, equal_nan=True) and np.array_equal(vals_b, vals[::-1], equal_nan=True)):
+            self.viol("call-aliasing", tags, case, {"what": "__call__ on a point array that was reversed in place",
+                                                    "expected": fmt_vals(vals[::-1][:, 0])[:200], "got": fmt_vals(vals_b[:, 0])[:200]})
         # the function may only be evaluated at points of the sparse grid ("the union of the component-grid points is
         # exactly that sparse grid"); in particular, with boundary points off, never on the boundary of the box
         usset = set(us)
@@ -573,6 +646,8 @@ class Runner:
             self.corr("integral", cj, fs(integral[j]), drv.ask("integral"))
             self.corr("call", cj, fmt_vals(vals[:, j]), drv.ask("call " + fmt_pts(xs)))
             self.corr("interpolate_grid", cj, fmt_vals(gvals[:, j]), drv.ask("igrid " + ";".join(",".join(fs(x) for x in cc) for cc in coords)))
+            self.corr("interpolate_grid(second grid, same list object)", cj, fmt_vals(gvals2[:, j]),
+                      drv.ask("igrid " + ";".join(",".join(fs(x) for x in cc) for cc in coords2)))
             self.corr("interpolate_points(component)", dict(cj, lv_one=list(lv_one)), fmt_vals(one[:, j]),
                       drv.ask("icomp %s %s" % (vec_str(lv_one), fmt_pts(xs))))
             # ---- oracle
@@ -672,7 +747,7 @@ def run_config(ctx, drv, cfg, bundles=None, far=False, nbundles=2, replaying=Non
         for rb in replaying:
             comps = [comp_from_case(cfg, j) for j in rb["comps"]]
             c2 = dict(case)
-            for k in ("interp_op", "lv_one", "integrator"):
+            for k in ("interp_op", "lv_one", "integrator", "coords2", "alias_mode"):
                 if k in rb:
                     c2[k] = rb[k]
             R.bundle(cfg, c2, info, comps, [tuple(p) for p in rb["xs"]], rb["coords"], far)
@@ -701,7 +776,7 @@ def run_nondyadic(ctx, cfg, subseed):
 
     def viol(probe, tg, detail):
         nonlocal ok
-        if ctx.violation(probe, tg, case, detail):
+        if ctx.violation(probe, tg, with_history(case), detail):
             ok = False
 
     def close(x, y):
@@ -827,7 +902,13 @@ def run(ctx):
     nfar = 3 if not thorough else 10
     for k in range(12 if not thorough else 80):   # non-dyadic stream: oracle only, tolerance 1e-9
         cfg = gen_nondyadic(ctx)
-        ok, case = run_nondyadic(ctx, cfg, ctx.rng.getrandbits(32))
+        sub = ctx.rng.getrandbits(32)
+        try:
+            ok, case = run_nondyadic(ctx, cfg, sub)
+        except Exception as e:   # the implementation raised where the property promises a value
+            case = {"cfg": cfg, "nondyadic": True, "subseed": sub}
+            ctx.violation("exception", {"exc": type(e).__name__, "nondyadic": True}, with_history(case), {"traceback": traceback.format_exc()[-1500:]})
+        remember(cfg)
         ctx.case(case, nontrivial=(cfg["dim"] >= 2 or cfg["lmax"] > cfg["lmin"]))
     for k in range(n):
         if ctx.time_left(budget) < 0:
@@ -835,7 +916,12 @@ def run(ctx):
             break
         far = k < nfar
         cfg = gen_cfg(ctx, thorough, far=far)
-        ok, case = run_config(ctx, drv, cfg, far=far, nbundles=(2 if not thorough else 3))
+        try:
+            ok, case = run_config(ctx, drv, cfg, far=far, nbundles=(2 if not thorough else 3))
+        except Exception as e:   # the implementation raised where the property promises a value
+            ok, case = False, {"cfg": cfg, "far": far}
+            ctx.violation("exception", {"exc": type(e).__name__, "dim": cfg["dim"]}, with_history(case), {"traceback": traceback.format_exc()[-1500:]})
+        remember(cfg)
         ctx.count("dim_%d" % cfg["dim"])
         ctx.count("lmin_%d" % cfg["lmin"])
         ctx.count("span_%d" % (cfg["lmax"] - cfg["lmin"]))
@@ -853,8 +939,15 @@ def run(ctx):
 
 def replay(ctx, rp):
     case = rp["case"]
+    if case.get("history"):
+        print("replay: %d earlier configuration(s) of this dimension work first" % len(case["history"]))
+        replay_history(case["history"])
     if case.get("nondyadic"):
-        ok, _ = run_nondyadic(ctx, case["cfg"], case["subseed"])
+        try:
+            ok, _ = run_nondyadic(ctx, case["cfg"], case["subseed"])
+        except Exception as e:
+            print("replay: REPRODUCED (the implementation raised %s: %s)" % (type(e).__name__, str(e)[:200]))
+            return 1
         known = sum(v[1] for v in ctx.known_hits.values() if v[0].get("probe") == rp.get("probe"))
         print("replay: %s" % ("property holds on this configuration" if ok and not known else "REPRODUCED"))
         for v in ctx.violations[:3]:
@@ -863,8 +956,12 @@ def replay(ctx, rp):
     drv = ctx.driver("drv_c02")
     rb = None
     if "comps" in case:
-        rb = [{k: case[k] for k in ("comps", "xs", "coords", "interp_op", "lv_one", "integrator") if k in case}]
-    ok, _ = run_config(ctx, drv, case["cfg"], far=case.get("far", False), replaying=rb if rb is not None else [])
+        rb = [{k: case[k] for k in ("comps", "xs", "coords", "interp_op", "lv_one", "integrator", "coords2", "alias_mode") if k in case}]
+    try:
+        ok, _ = run_config(ctx, drv, case["cfg"], far=case.get("far", False), replaying=rb if rb is not None else [])
+    except Exception as e:
+        print("replay: REPRODUCED (the implementation raised %s: %s)" % (type(e).__name__, str(e)[:200]))
+        return 1
     known = sum(v[1] for v in ctx.known_hits.values() if v[0].get("probe") == rp.get("probe"))
     print("replay: %s" % ("property holds and model agrees on this case" if ok and not known else "REPRODUCED"))
     for v in ctx.violations[:3]:
